@@ -63,6 +63,7 @@ func fnv32a(s string) uint32 {
 
 func (c *counter) IncCheckReset(t time.Time, tick time.Duration) uint64 {
 	tn := t.UnixNano()
+	verifHook("smp.enter", c, tn, 0)
 	resetAfter := c.resetAt.Load()
 	verifHook("smp.load", c, tn, resetAfter)
 	if resetAfter > tn {
